@@ -213,6 +213,8 @@ class TileManager(object):
                     tile.source = created_tile.source
                     # cacheable flag, timestamp and size belong to the new source
                     tile.cacheable = created_tile.cacheable
+                    tile.timestamp = created_tile.timestamp
+                    tile.size = created_tile.size
 
         return tiles
 
@@ -245,9 +247,6 @@ class TileManager(object):
             stale = int(tile.timestamp) <= max_mtime
             if stale:
                 cached = False
-                # the metadata of the stale version does not describe the tile that replaces it
-                tile.timestamp = None
-                tile.size = None
         return cached
 
     def is_stale(self, tile, dimensions=None):
@@ -419,7 +418,8 @@ class TileCreator(object):
         query = MapQuery(tile_bbox, self.grid.tile_size, self.grid.srs,
                          self.tile_mgr.request_format, dimensions=self.dimensions)
         with self.tile_mgr.lock(tile):
-            if not self.is_cached(tile, dimensions=dimensions):
+            # look at the cache again: `tile` can hold an expired copy that was loaded before the lock was taken
+            if not self.is_cached(Tile(tile.coord), dimensions=self.dimensions):
                 source = None
                 try:
                     source = self._query_sources(query)
@@ -442,10 +442,17 @@ class TileCreator(object):
                 source.image_opts = self.tile_mgr.image_opts
                 tile.source = source
                 tile.cacheable = source.cacheable
+                # timestamp and size of a replaced version do not describe the new source
+                tile.timestamp = None
+                tile.size = None
                 tile = self.tile_mgr.apply_tile_filter(tile)
                 if source.cacheable:
                     self.cache.store_tile(tile)
             else:
+                # created in the meantime: drop an expired copy and load what is in the cache now
+                tile.source = None
+                tile.timestamp = None
+                tile.size = None
                 self.cache.load_tile(tile)
         return [tile]
 
